@@ -75,6 +75,14 @@ def check_one(ctx, start, end, fmt):
                   start=start, end=end, got=repr(got)[:200])
         return got
     lo, hi = R.zero_based(start, end, fmt)
+    if lo == hi + 1:
+        # empty interval written start = end + 1 (e.g. a zero-length insertion site): still ONE integer bin, the finest
+        # one holding the base that follows it
+        ext = R.level_extent(got)
+        ok = ext is not None and ext[0] == 0 and ext[1] <= lo <= ext[2]
+        ctx.check(ok, "empty-interval-bin-wrong", sig, start=start, end=end, got=repr(got)[:200])
+        ctx.outcome(("empty", fmt))
+        return got
     if lo > hi:
         return got
     ext = R.level_extent(got)
@@ -102,6 +110,15 @@ def check_set(ctx, start, end, fmt):
         ctx.nontrivial()
         ctx.outcome(("oor", fmt, False))
         ctx.check(1 in got, "out-of-range-set-lacks-bin-1", sig, start=start, end=end, got=sorted(got)[:20])
+        # the returned set belongs to the caller: editing it must not change later answers
+        try:
+            got.add(999999)
+            got.discard(1)
+        except AttributeError:
+            pass
+        again = B.bins(start, end, fmt=fmt, one=False)
+        ctx.check(isinstance(again, (set, frozenset)) and 1 in again and 999999 not in again, "returned-set-is-shared-state", sig,
+                  start=start, end=end, second=sorted(again)[:10] if isinstance(again, (set, frozenset)) else repr(again))
         return got
     lo, hi = R.zero_based(start, end, fmt)
     if lo > hi:
